@@ -8,6 +8,7 @@ CMD = "cd /verif && PYTHONHASHSEED=0 OPEN_PECTUS_VERIF=1 /venv/bin/python -m mc 
 
 # Every check module carries its own META = dict(technique=, text=, note=[, design_ref=]); LEVEL is the evidence level.
 CHECKS: dict[str, tuple[str, str, str, str, str]] = {}
+PENDING = {"C28", "C29", "C30"}     # being built; not registered yet
 
 
 def _scan():
@@ -15,6 +16,8 @@ def _scan():
     d = os.path.join(ROOT, "mc", "checks")
     for fn in sorted(os.listdir(d)):
         if not (fn.startswith("c") and fn.endswith(".py") and fn[1:3].isdigit()):
+            continue
+        if fn[:-3].upper() in PENDING:
             continue
         mod = importlib.import_module("mc.checks." + fn[:-3])
         meta = mod.META
